@@ -8,6 +8,9 @@
 static int Nmax = 2, Lmax = 3;
 static char path[512];
 static int ins_pos, ins_indent; static char ins_c; static char ins_text[16];
+static int longmode;                 /* --p3 = 1: the comment line is long: a token of <= 2 structural characters sits at a buffer-size boundary of a line of 'a's */
+static const int LONG_AT[8] = { 8188, 8190, 8191, 8192, 16382, 16383, 16384, 32767 };
+static int long_at, long_total;
 static char alpha[12]; static int nalpha;
 
 static void build_alpha(void)
@@ -35,9 +38,10 @@ static void gen(void)
   ins_pos = mc_choose(n + 1);
   ins_indent = mc_choose(3);
   ins_c = cg.C[mc_choose((int)strlen(cg.C))];
-  int len = mc_choose(Lmax + 1);
+  int len = longmode ? 1 + mc_choose(Lmax > 2 ? 2 : Lmax) : mc_choose(Lmax + 1);
   for (int i = 0; i < len; i++) ins_text[i] = alpha[mc_choose(nalpha)];
   ins_text[len] = 0;
+  if (longmode) { long_at = LONG_AT[mc_choose(8)]; long_total = mc_choose(2) ? 40000 : 0; }   /* the token ends the line, or the line goes on to 40000 characters */
 }
 
 static int take(const char *content, size_t len, obs_cfg *o, sbuf *why, const char *what)
@@ -69,10 +73,20 @@ static void exec(void)
   cg_final_nl = 1;
   cg_render(&base);
   for (int i = 0; i <= cg_n; i++) {
+    if (i == ins_pos && longmode) {
+      size_t start = mod.len;                                        /* offset of the line in the file */
+      sb_printf(&mod, "%s%c", indents[ins_indent], ins_c);
+      while (mod.len - start < (size_t)long_at) sb_putc(&mod, 'a');
+      sb_puts(&mod, ins_text);
+      while (mod.len - start < (size_t)long_total) sb_putc(&mod, 'a');
+      sb_putc(&mod, '\n');
+    } else
     if (i == ins_pos) sb_printf(&mod, "%s%c%s\n", indents[ins_indent], ins_c, ins_text);
     if (i < cg_n) { sb_puts(&mod, cg_l[i].text); sb_putc(&mod, '\n'); }
   }
-  sb_puts(&sig, "file=\""); sb_put_esc(&sig, mod.s, mod.len); sb_printf(&sig, "\" inserted-line=%d delim=\"", ins_pos + 1); sb_put_escs(&sig, cg.D);
+  if (longmode) { sb_puts(&sig, "base-file=\""); sb_put_esc(&sig, base.s, base.len); sb_printf(&sig, "\" long comment line: indent %d, char '%c', token \"", ins_indent, ins_c); sb_put_escs(&sig, ins_text); sb_printf(&sig, "\" at offset %d of a line of %d characters,", long_at, long_total ? long_total : long_at + (int)strlen(ins_text)); }
+  else { sb_puts(&sig, "file=\""); sb_put_esc(&sig, mod.s, mod.len); sb_puts(&sig, "\""); }
+  sb_printf(&sig, " inserted-line=%d delim=\"", ins_pos + 1); sb_put_escs(&sig, cg.D);
   sb_puts(&sig, "\" comment=\""); sb_put_escs(&sig, cg.Carg); sb_puts(&sig, "\"");
   snprintf(mc_case_sig, sizeof mc_case_sig, "%s", sig.s);
   mc_log("%s\n", sig.s);
@@ -120,6 +134,7 @@ int main(int argc, char **argv)
   mc_args(argc, argv);
   if (mc_opt.param[0]) Nmax = (int)mc_opt.param[0];
   if (mc_opt.param[1]) Lmax = (int)mc_opt.param[1];
+  longmode = (int)mc_opt.param[3];
   if (Nmax > CG_MAXLINES - 1 || Lmax > 8) mc_die("bounds too large");
   cg_opt_cont = 0; cg_opt_decor = 0; cg_opt_ccomment = 0; cg_opt_blankws = 0; cg_opt_tiny = 1;
   mc_split = 4;
@@ -127,6 +142,7 @@ int main(int argc, char **argv)
   if (mc_opt.case_id) return mc_replay(gen, exec, mc_opt.case_id);
   int complete = 1;
   for (int cfgi = 0; cfgi < CG_NCFG_WITH_DEFAULT_COMMENT && complete; cfgi++) {
+    if (longmode && !mc_opt.thorough && cfgi % 7 != 0) continue;      /* quick: the four comment sets with delimiter "=" */
     mc_tag = cfgi;
     complete = mc_explore(gen, exec, 0, 0);
   }
